@@ -82,16 +82,25 @@ Definition DUMP_DH_COMPRESSED : N := 39.   (* zlib | lzo | snappy | zstd *)
     raw data is read straight into the page buffer. *)
 Inductive dd_action := DdDecompress (srclen dstcap : N) | DdRaw.
 
-Definition dd_page (alim : N) (f : file) (flen ps flags size : N) (off : Z) : res dd_action :=
+(** [slot] is the size of the destination: a page cache slot, i.e. the
+    *current* [arch.page_size] (VMCOREINFO read after the header may have
+    changed it and re-allocated the cache).  [chk] is what a raw page's size is
+    compared with; the code compares with [get_page_size(ctx)], i.e. [chk =
+    slot] ([dd_page]).  Comparing with the header's block size instead is a
+    different program ([C03_diskdump_raw_page_block_size_refuted]). *)
+Definition dd_page_gen (alim : N) (f : file) (flen chk slot flags size : N) (off : Z) : res dd_action :=
   if negb (extent_ok flen off size) then Err KCORRUPT (StOther 30)     (* fix 92: "Page data extends beyond end of file" *)
   else if negb (N.land flags DUMP_DH_COMPRESSED =? 0) then
     do _ <- get_chunk alim f size off;
-    Ok (DdDecompress size ps)
-  else if negb (size =? ps) then Err KCORRUPT (StPageSize size)
+    Ok (DdDecompress size slot)
+  else if negb (size =? chk) then Err KCORRUPT (StPageSize size)
   else
     do _ <- pread f size off;
-    do _ <- copy_into ps size;
+    do _ <- copy_into slot size;
     Ok DdRaw.
+
+Definition dd_page (alim : N) (f : file) (flen ps flags size : N) (off : Z) : res dd_action :=
+  dd_page_gen alim f flen ps ps flags size off.
 
 (** ** (f) LKCD *)
 Definition DUMP_COMPRESSED : N := 2.
